@@ -45,12 +45,12 @@ MAX_STEPS = 8000
 
 
 def cases(tier, seed):
-    n = 40 if tier == 'quick' else 400
+    n = 40 if tier == 'quick' else 1000
     out = []
     for i in range(n):
         out.append({'name': 'core-%d' % i, 'seed': [seed, 21, i],
                     'n_ring': (2 if (tier == 'quick' or i % 4) else 3)})
-    n_ad = 10 if tier == 'quick' else 80
+    n_ad = 10 if tier == 'quick' else 240
     for i in range(n_ad):
         out.append({'name': 'adiabatic-%d' % i, 'seed': [seed, 22, i],
                     'n_ring': 2, 'gap': 'none'})
